@@ -177,6 +177,47 @@ theorem SockOk.close {a : Addr} {k : Sock} (h : SockOk a k) (g : Gen) : SockOk a
 theorem SockOk.gc {a : Addr} {k : Sock} (h : SockOk a k) : SockOk a { k with leaks := 0 } :=
   ⟨h.tcpPool, h.ucnt, h.umapNone, h.fileHeld⟩
 
+/-- nothing is left behind: an unheld unix socket has no file, no descriptor is leaked -/
+structure SockClean (a : Addr) (k : Sock) : Prop where
+  fileGone : a.unix = true → k.hs = [] → k.file = false
+  noLeak : k.leaks = 0
+
+theorem SockClean.empty (a : Addr) : SockClean a Sock.empty := ⟨fun _ _ => rfl, rfl⟩
+
+theorem SockClean.bind {a : Addr} {k : Sock} (h : SockClean a k) (g : Gen) : SockClean a (bindSock a k g) := by
+  obtain ⟨kd, hkd⟩ := bindSock_hs a k g
+  refine ⟨fun _ he => ?_, ?_⟩
+  · rw [hkd] at he; simp at he
+  · unfold bindSock bindUnix bindTcp
+    split
+    · split
+      · exact h.noLeak
+      · rfl
+    · exact h.noLeak
+
+theorem SockClean.close {a : Addr} {k : Sock} (hok : SockOk a k) (h : SockClean a k) (g : Gen) :
+    SockClean a (closeSock a k g) := by
+  unfold closeSock
+  split
+  · exact h
+  · rename_i h0 hf
+    have hm : h0 ∈ k.hs := List.mem_of_find?_eq_some hf
+    have hlen : (k.hs.erase h0).length = k.hs.length - 1 := List.length_erase_of_mem hm
+    cases hu : a.unix
+    · simp only [Bool.false_eq_true, if_false]
+      exact ⟨fun h' => by simp [hu] at h', h.noLeak⟩
+    · simp only [if_true]
+      unfold closeUnix
+      split
+      · exact ⟨fun _ _ => rfl, h.noLeak⟩
+      · rename_i hgt
+        refine ⟨fun _ he => ?_, h.noLeak⟩
+        have hc := hok.ucnt hu
+        simp only at he
+        rw [he] at hlen
+        simp at hlen
+        omega
+
 /-! ### the transition system -/
 
 @[simp] theorem setSock_same (f : Addr → Sock) (a : Addr) (k : Sock) : setSock f a k a = k := by
@@ -540,12 +581,8 @@ theorem Inv.step {s s' : State} {st : Step} (hi : Inv s) (h : step? s st = some 
   obtain ⟨he, rfl⟩ := step?_some h
   cases st with
   | begin c => exact hi.begin he
-  | bind a =>
-    simp only [enabled, Bool.and_eq_true] at he
-    exact hi.bind he.1
-  | bindStale a =>
-    simp only [enabled, Bool.and_eq_true] at he
-    exact hi.bindStale he.1.1
+  | bind a => exact hi.bind he
+  | bindStale a => simp [enabled] at he
   | swap => exact hi.swap he
   | reject => exact hi.reject he
   | close g a =>
@@ -582,6 +619,31 @@ theorem Reach.inv {s : State} (h : Reach s) : Inv s := by
   induction h with
   | init => exact Inv.init
   | step st _ hs ih => exact ih.step hs
+
+theorem Reach.clean {s : State} (h : Reach s) : ∀ a, SockClean a (s.socks a) := by
+  induction h with
+  | init => intro a; exact SockClean.empty a
+  | step st hr hs ih =>
+    obtain ⟨_, rfl⟩ := step?_some hs
+    intro b
+    cases st with
+    | bind a =>
+      simp only [eff]
+      by_cases hba : b = a
+      · subst hba; rw [setSock_same]; exact (ih b).bind _
+      · rw [setSock_ne _ _ hba]; exact ih b
+    | close g a =>
+      simp only [eff]
+      by_cases hba : b = a
+      · subst hba; rw [setSock_same]; exact (ih b).close (hr.inv.books b) g
+      · rw [setSock_ne _ _ hba]; exact ih b
+    | gc a =>
+      simp only [eff]
+      by_cases hba : b = a
+      · subst hba; rw [setSock_same]; exact ⟨(ih b).fileGone, rfl⟩
+      · rw [setSock_ne _ _ hba]; exact ih b
+    | cb k g => cases k <;> exact ih b
+    | _ => exact ih b
 
 /-! ### a run whose every config keeps an address -/
 
@@ -782,7 +844,7 @@ theorem inflight_run : ∀ (steps : List Step) {s s' : State}, run s steps = som
           exact ⟨ih1, ih2, ih3⟩
     · cases hr
 
-/-! ### the `unixSockets` entry is never stale unless a load was rejected after it had started -/
+/-! ### no config is ever left half-started -/
 
 theorem gen_ne_of_mem_erase {h0 x : Handle} : ∀ {l : List Handle}, (l.map Handle.gen).Nodup → h0 ∈ l →
     x ∈ l.erase h0 → x.gen ≠ h0.gen
@@ -805,180 +867,15 @@ theorem gen_ne_of_mem_erase {h0 x : Handle} : ∀ {l : List Handle}, (l.map Hand
         exact hnd.1 (e' ▸ List.mem_map_of_mem hm')
       · exact gen_ne_of_mem_erase hnd.2 hm' e
 
-/-- what holds as long as no load has been rejected after its HTTP app had started -/
-structure K (s : State) : Prop where
-  noZombies : s.zombies = []
-  umapMax : ∀ a g, a.unix = true → (s.socks a).umap = some g →
-    (s.socks a).holds g = true ∧ ∀ h, h ∈ (s.socks a).hs → h.gen ≤ g
-  retLtCur : ∀ r c, s.retiring = some r → s.cur = some c → r.gen < c.gen
-  curLtNext : ∀ c n, s.cur = some c → s.next = some n → c.gen < n.gen
-  nextFresh : ∀ n, s.next = some n → s.fresh = n.gen + 1
-
-def KInv (s : State) : Prop := s.everRejected = false → K s
-
-theorem KInv.init : KInv init := by
-  intro _
-  constructor <;> simp [C02.init, Sock.empty]
-
-theorem K.not_stale {s : State} (hk : K s) {a : Addr} (hu : a.unix = true) : (s.socks a).stale = false := by
-  unfold Sock.stale
-  cases hm : (s.socks a).umap with
-  | none => rfl
-  | some g => simp [(hk.umapMax a g hu hm).1]
-
-theorem K.frame {s s' : State} (hk : K s)
-    (hcur : s'.cur = s.cur) (hnext : s'.next = s.next) (hret : s'.retiring = s.retiring)
-    (hz : s'.zombies = s.zombies) (hf : s'.fresh = s.fresh)
-    (hhs : ∀ a, (s'.socks a).hs = (s.socks a).hs) (hum : ∀ a, (s'.socks a).umap = (s.socks a).umap) : K s' := by
-  refine ⟨hz ▸ hk.noZombies, ?_, ?_, ?_, ?_⟩
-  · intro a g hu hm
-    rw [hum a] at hm
-    simp only [Sock.holds, hhs a]
-    exact hk.umapMax a g hu hm
-  · intro r c h1 h2; exact hk.retLtCur r c (hret ▸ h1) (hcur ▸ h2)
-  · intro c n h1 h2; exact hk.curLtNext c n (hcur ▸ h1) (hnext ▸ h2)
-  · intro n h; rw [hf]; exact hk.nextFresh n (hnext ▸ h)
-
-theorem KInv.step {s s' : State} {st : Step} (hi : Inv s) (hk : KInv s) (h : step? s st = some s') : KInv s' := by
-  obtain ⟨he, rfl⟩ := step?_some h
-  intro hrej
-  cases st with
-  | reject => simp [eff] at hrej
-  | begin c =>
-    have k := hk hrej
-    simp only [enabled, Bool.and_eq_true, decide_eq_true_eq] at he
-    obtain ⟨⟨⟨_, _⟩, hf⟩, _⟩ := he
-    simp only [eff]
-    refine ⟨k.noZombies, k.umapMax, ?_, ?_, ?_⟩ <;> try dsimp only
-    · intro r c' h'; cases h'
-    · intro c0 n h0 h'; cases h'; have := hi.curLt c0 h0; omega
-    · intro n h'; cases h'; rfl
-  | bind a =>
-    have k := hk hrej
-    simp only [enabled, Bool.and_eq_true] at he
-    obtain ⟨c, hc, _, _⟩ := bindable_some he.1
-    have hng : nextGen s = c.gen := by simp [nextGen, hc]
-    have hfr := k.nextFresh c hc
-    simp only [eff, hng]
-    refine ⟨k.noZombies, ?_, k.retLtCur, k.curLtNext, k.nextFresh⟩ <;> try dsimp only
-    intro b g hu hm
-    by_cases hba : b = a
-    · subst hba
-      rw [setSock_same] at hm ⊢
-      have hg : g = c.gen := by
-        unfold bindSock bindUnix at hm
-        rw [if_pos hu] at hm
-        split at hm <;> simp at hm <;> exact hm.symm
-      subst hg
-      refine ⟨holds_bindSock_self _ _ _, ?_⟩
-      intro h hm'
-      obtain ⟨kd, hkd⟩ := bindSock_hs b (s.socks b) c.gen
-      rw [hkd, List.mem_append] at hm'
-      rcases hm' with hm' | hm'
-      · have := hi.hLt b h hm'; omega
-      · simp at hm'; subst hm'; exact Nat.le_refl _
-    · rw [setSock_ne _ _ hba] at hm ⊢
-      exact k.umapMax b g hu hm
-  | bindStale a =>
-    have k := hk hrej
-    simp only [enabled, Bool.and_eq_true] at he
-    have := k.not_stale (a := a) he.1.2
-    rw [this] at he; simp at he
-  | swap =>
-    have k := hk hrej
-    simp only [enabled] at he
-    split at he
-    · rename_i c hc
-      simp only [eff, hc]
-      refine ⟨k.noZombies, k.umapMax, ?_, ?_, ?_⟩ <;> try dsimp only
-      · intro r c' hr h'; cases h'; exact k.curLtNext r c hr hc
-      · intro c0 n _ h'; cases h'
-      · intro n h'; cases h'
-    · cases he
-  | stopAll =>
-    have k := hk hrej
-    simp only [eff]
-    refine ⟨k.noZombies, k.umapMax, ?_, ?_, k.nextFresh⟩ <;> try dsimp only
-    · intro r c _ h'; cases h'
-    · intro c n h'; cases h'
-  | close g a =>
-    have k := hk hrej
-    simp only [enabled, Bool.and_eq_true] at he
-    obtain ⟨r, hr, hrg⟩ := isRetiring_some he.1
-    have hholds : (s.socks a).holds g = true := he.2
-    simp only [eff]
-    refine ⟨k.noZombies, ?_, k.retLtCur, k.curLtNext, k.nextFresh⟩ <;> try dsimp only
-    intro b g0 hu hm
-    by_cases hba : b = a
-    · subst hba
-      rw [setSock_same] at hm ⊢
-      -- the handle that is closed
-      obtain ⟨hx, hxm, hxg⟩ := (Sock.holds_iff _ _).mp hholds
-      cases hf : (s.socks b).hs.find? (fun h => h.gen == g) with
-      | none =>
-        have := List.find?_eq_none.mp hf hx hxm
-        simp [hxg] at this
-      | some h0 =>
-        have h0m : h0 ∈ (s.socks b).hs := List.mem_of_find?_eq_some hf
-        have h0g : h0.gen = g := by simpa using List.find?_some hf
-        have hcl : closeSock b (s.socks b) g = closeUnix (s.socks b) h0 := by
-          unfold closeSock; rw [hf]; simp [hu]
-        rw [hcl] at hm ⊢
-        unfold closeUnix at hm ⊢
-        split at hm
-        · simp at hm
-        · rename_i hgt
-          simp only at hm
-          obtain ⟨hh0, hmax⟩ := k.umapMax b g0 hu hm
-          have hne : g0 ≠ g := by
-            intro e
-            subst e
-            -- a second listener exists; it is older than the retiring config, so it can only be the
-            -- running one — which is younger
-            have hlen := (hi.books b).ucnt hu
-            have hl : ((s.socks b).hs.erase h0).length = (s.socks b).hs.length - 1 := List.length_erase_of_mem h0m
-            have : 0 < ((s.socks b).hs.erase h0).length := by omega
-            obtain ⟨h1, h1m⟩ := List.exists_mem_of_length_pos this
-            have h1m' : h1 ∈ (s.socks b).hs := List.mem_of_mem_erase h1m
-            have h1ne : h1.gen ≠ g0 := h0g ▸ gen_ne_of_mem_erase (hi.nodup b) h0m h1m
-            have h1le := hmax h1 h1m'
-            rcases hi.owner b h1 h1m' with ho | ho | ho | ho
-            · cases hc : s.cur with
-              | none => simp [genOf, hc] at ho
-              | some c =>
-                simp [genOf, hc] at ho
-                have := k.retLtCur r c hr hc
-                omega
-            · cases hn : s.next with
-              | none => simp [genOf, hn] at ho
-              | some n => have := hi.nextRet n hn; rw [hr] at this; cases this
-            · simp [genOf, hr] at ho; omega
-            · rw [k.noZombies] at ho; cases ho
-          rw [if_neg hgt]
-          refine ⟨?_, ?_⟩
-          · have := holds_closeSock_of_ne b (s.socks b) g g0 hne
-            rw [hcl] at this
-            unfold closeUnix at this
-            rw [if_neg hgt] at this
-            rw [this]; exact hh0
-          · intro h hmem
-            exact hmax h (List.mem_of_mem_erase hmem)
-    · rw [setSock_ne _ _ hba] at hm ⊢
-      exact k.umapMax b g0 hu hm
-  | ret => exact (hk hrej).frame rfl rfl rfl rfl rfl (fun _ => rfl) (fun _ => rfl)
-  | accept t g a => exact (hk hrej).frame rfl rfl rfl rfl rfl (fun _ => rfl) (fun _ => rfl)
-  | complete t g => exact (hk hrej).frame rfl rfl rfl rfl rfl (fun _ => rfl) (fun _ => rfl)
-  | gc a =>
-    refine (hk hrej).frame rfl rfl rfl rfl rfl ?_ ?_ <;> intro b <;> simp only [eff] <;> by_cases hba : b = a
-    · subst hba; rw [setSock_same]
-    · rw [setSock_ne _ _ hba]
-    · subst hba; rw [setSock_same]
-    · rw [setSock_ne _ _ hba]
-  | cb k g => cases k <;> exact (hk hrej).frame rfl rfl rfl rfl rfl (fun _ => rfl) (fun _ => rfl)
-
-theorem Reach.kinv {s : State} (h : Reach s) : KInv s := by
+/-- `bindStale` is never enabled, so `zombies` stays empty -/
+theorem Reach.noZombies {s : State} (h : Reach s) : s.zombies = [] := by
   induction h with
-  | init => exact KInv.init
-  | step st hr hs ih => exact ih.step hr.inv hs
+  | init => rfl
+  | step st _ hs ih =>
+    obtain ⟨he, rfl⟩ := step?_some hs
+    cases st with
+    | bindStale a => simp [enabled] at he
+    | cb k g => cases k <;> exact ih
+    | _ => exact ih
 
 end CaddyModel.C02
